@@ -115,7 +115,7 @@ def apply_spec(spec: dict, op: dict) -> tuple[bool, dict]:
         if c is None:
             return reject()
         s["components"].remove(c)
-        if kind == "variable":
+        if kind == "variable" and op.get("keep_stoichiometries") is not True:
             _strip_var(s, op["name"])
     elif o in ("update_parameter", "update_variable"):
         c = find(s, o[7:], op["name"])
@@ -245,6 +245,8 @@ def apply_real(model, op: dict) -> None:  # noqa: ANN001
         c = {k: v for k, v in op.items() if k != "op"}
         c["kind"] = o[4:]
         rm.add_component(model, c)
+    elif o == "remove_variable" and op.get("keep_stoichiometries") is True:
+        model.remove_variable(op["name"], remove_stoichiometries=False)
     elif o.startswith("remove_") and not o.endswith("s"):
         getattr(model, o)(op["name"])
     elif o == "update_parameter":
@@ -344,6 +346,11 @@ def observe(model) -> dict:  # noqa: ANN001
         "readout_names": model.get_readout_names(),
         "surrogate_names": list(model.get_raw_surrogates(as_copy=False)),
         "surrogate_outputs": model.get_surrogate_output_names(),
+        # the content itself: which compounds every reaction / surrogate flux names (coefficients by their kind only)
+        "stoichiometry_keys": {
+            **{n: sorted(r.stoichiometry) for n, r in model.get_raw_reactions(as_copy=False).items()},
+            **{f"{n}:{fx}": sorted(st) for n, sg in model.get_raw_surrogates(as_copy=False).items() for fx, st in sg.stoichiometries.items()},
+        },
     }
     for q in [*QUERIES, "get_args@state", "get_rhs@state", "get_stoichiometries", "get_derived_variable_names"]:
         obs[q] = run_query(model, q, STATE_VALS)
@@ -616,6 +623,9 @@ def triple_ops(spec: dict) -> list[dict]:
         {"op": "make_parameter_dynamic", "name": "k3", "stoichiometries": {"so1": -1.0}}, {"op": "make_parameter_dynamic", "name": "k3", "stoichiometries": {"ghost_rxn": 1.0}},
         {"op": "make_parameter_dynamic", "name": "k3", "stoichiometries": {"v1": 1.0, "ghost_rxn": 1.0}}, {"op": "make_parameter_dynamic", "name": "x"},
         {"op": "make_parameter_dynamic", "name": "kq"},
+        # removal that keeps the coefficients (of reactions and of surrogate fluxes alike), so that the variable can come back
+        {"op": "remove_variable", "name": "y", "keep_stoichiometries": True}, {"op": "remove_variable", "name": "x", "keep_stoichiometries": True},
+        {"op": "add_variable", "name": "y", "value": 0.8}, {"op": "add_variable", "name": "x", "value": 1.3},
         # values that are exactly zero are values
         {"op": "make_variable_static", "name": "y", "value": 0.0}, {"op": "make_variable_static", "name": "x", "value": 0},
         {"op": "make_parameter_dynamic", "name": "k3", "initial_value": 0.0}, {"op": "update_parameter", "name": "k1", "value": 0.0}, {"op": "update_parameter", "name": "k2", "value": 0},
